@@ -218,10 +218,29 @@ def print_assumptions(prop_file: Path, workdir: Path) -> dict[str, list[str]]:
     return res
 
 
-def hygiene_scan() -> list[str]:
-    """Forbidden vernacular anywhere in the development (comments stripped)."""
+def dep_closure(targets: list[str]) -> list[str]:
+    """.v files (relative to COQ) that the given .vo targets transitively Require."""
+    by_stem = {Path(r).stem: r for r in coq_sources()}
+    todo = [t[:-1] if t.endswith(".vo") else t for t in targets]
+    seen: list[str] = []
+    while todo:
+        rel = todo.pop()
+        if rel in seen or not (COQ / rel).exists():
+            continue
+        seen.append(rel)
+        txt = strip_coq_comments((COQ / rel).read_text())
+        for m in re.finditer(r"From\s+Koreo\s+Require\s+(?:Import|Export)?\s*([^.]*)\.", txt):
+            for name in m.group(1).split():
+                name = name.split(".")[-1]
+                if name in by_stem:
+                    todo.append(by_stem[name])
+    return sorted(seen)
+
+
+def hygiene_scan(files: list[str] | None = None) -> list[str]:
+    """Forbidden vernacular in the given files (default: the whole development)."""
     hits = []
-    for rel in coq_sources():
+    for rel in (files if files is not None else coq_sources()):
         txt = (COQ / rel).read_text()
         txt = strip_coq_comments(txt)
         for m in FORBIDDEN.finditer(txt):
@@ -336,9 +355,15 @@ def eval_cases(corr_module: str, case_terms: list[str], workdir: Path,
 # --------------------------------------------------------------------------
 
 def load_known() -> dict:
-    if KNOWN.exists():
-        return json.loads(KNOWN.read_text())
-    return {"known": [], "fixed": []}
+    """known_findings.json plus per-property files known_findings.d/Cxx.json (same shape).
+    Read-only: nothing is ever added at run time."""
+    out = {"known": [], "fixed": []}
+    files = ([KNOWN] if KNOWN.exists() else []) + sorted((VERIF / "known_findings.d").glob("*.json"))
+    for f in files:
+        d = json.loads(f.read_text())
+        out["known"] += d.get("known", [])
+        out["fixed"] += d.get("fixed", [])
+    return out
 
 
 def known_match(prop: str, signature: str) -> dict | None:
